@@ -1,11 +1,386 @@
-/- Driver for C18 (stub — not built yet) -/
+/-
+Driver for C18: replays a harness transcript through the NDL model (`Ndl.parse*`, `Ndl.transform`,
+`Ndl.instantiate`) and the denotation (`Ndl.denote`) — the definitions Props/C18.lean is about.
+
+Per case: every `mod/gate/sub/conn` line is parsed with the model's `FromStr` and compared with the
+implementation's answer; the document is assembled with `Ndl.parseDef`, put into the hash-map
+iteration order the implementation reported (`L=`), elaborated and instantiated, and the canonical
+dumps are compared with what `transform` / `nodes_from_ndl` produced.
+-/
+import Desverif.Spec.Ndl
 import Driver.Common
 namespace Driver.C18
-open Driver
+open Driver Ndl
+
+/-! ### escaping (mirror of harness/src/c18.rs) -/
+
+def hexVal (s : List Char) : Option Nat :=
+  s.foldl (fun acc c =>
+    match acc with
+    | none => none
+    | some v =>
+      if '0' ≤ c ∧ c ≤ '9' then some (v * 16 + (c.toNat - '0'.toNat))
+      else if 'a' ≤ c ∧ c ≤ 'f' then some (v * 16 + (c.toNat - 'a'.toNat + 10))
+      else if 'A' ≤ c ∧ c ≤ 'F' then some (v * 16 + (c.toNat - 'A'.toNat + 10))
+      else none) (some 0)
+
+partial def unescL : List Char → List Char
+  | [] => []
+  | '%' :: r =>
+    let h := r.takeWhile (· ≠ ';')
+    let rest := (r.dropWhile (· ≠ ';')).drop 1
+    if h.isEmpty then unescL rest
+    else match hexVal h with
+      | some v => Char.ofNat v :: unescL rest
+      | none => unescL rest
+  | c :: r => c :: unescL r
+
+def unesc (s : String) : Str := unescL s.toList
+
+def e (s : Str) : String :=
+  if s.isEmpty then "%;"
+  else String.join (s.map fun c =>
+    if c.isAlphanum || c = '_' then String.singleton c
+    else "%" ++ String.ofList (Nat.toDigits 16 c.toNat) ++ ";")
+
+/-! ### canonical dumps -/
+
+def dField (f : FieldDef) : String :=
+  match f.kard with
+  | .atom => e f.ident
+  | .cluster n => s!"{e f.ident}[{n}]"
+
+def dGen (t : TypClause GenericsDef) : String :=
+  s!"{e t.ident}({",".intercalate (t.args.map fun g => s!"{e g.binding}<{e g.bound}")})"
+
+def dTyp (t : TypClause Str) : String := s!"{e t.ident}({",".intercalate (t.args.map e)})"
+
+def dEp (p : EndpointDef) : String := "/".intercalate (p.accessors.map dField)
+
+def dLink (l : Link) : String :=
+  let q := match l.queuesize with
+    | some q => toString q
+    | none => "-"
+  s!"{l.latency}/{l.jitter}/{l.bitrate}/{q}"
+
+def dAcc (a : List Accessor) : String :=
+  "/".intercalate (a.map fun x => match x.index with
+    | some i => s!"{e x.name}[{i}]"
+    | none => e x.name)
+
+def sortStrings (l : List String) : List String := (l.toArray.qsort (· < ·)).toList
+
+partial def dNode : Node → String
+  | .mk typ subs gates conns =>
+    let g := sortStrings (gates.map dField)
+    let s := subs.map fun (f, n) => s!"{dField f}={dNode n}"
+    let c := conns.map fun c =>
+      let l := match c.link with
+        | some l => dLink l
+        | none => "-"
+      s!"{dAcc c.lhs}~{dAcc c.rhs}@{l}"
+    "N{" ++ s!"{e typ};{",".intercalate g};{",".intercalate s};{",".intercalate c}" ++ "}"
+
+def kindName : Kind → String
+  | .symbolAlreadyDefined => "SymbolAlreadyDefined"
+  | .unknownLink => "UnknownLink"
+  | .unknownModule => "UnknownModule"
+  | .unresolvableDependency => "UnresolvableDependency"
+  | .invalidGate => "InvalidGate"
+  | .invalidSubmodule => "InvalidSubmodule"
+  | .unknownGateInConnection => "UnknownGateInConnection"
+  | .unknownSubmoduleInConnection => "UnknownSubmoduleInConnection"
+  | .connectionIndexOutOfBounds => "ConnectionIndexOutOfBounds"
+  | .unequalPeers => "UnequalPeers"
+  | .invalidTypStatement => "InvalidTypStatement"
+  | .assignedTypDoesNotConformToInterface => "AssignedTypDoesNotConformToInterface"
+  | .missingRegistrySymbol => "MissingRegistrySymbol"
+
+def dFail : Fail → String
+  | .internal _ => "panic"
+  | .parse => "parse"
+  | .err k d sp =>
+    let o (x : Option Str) : String := match x with
+      | some s => e s
+      | none => "-"
+    let c := match sp.connection with
+      | some c => toString c
+      | none => "-"
+    s!"err:{kindName k}:{"|".intercalate (d.map e)}@{o sp.module};{o sp.submodule};{o sp.gate};{c}"
+
+def dMetrics (m : Option Metrics) : String :=
+  match m with
+  | none => "-"
+  | some m => s!"{m.bitrate}/{m.latency}/{m.jitter}/{m.queue}"
+
+def dWorld (w : World) : String :=
+  let slot (s : Option Slot) : String :=
+    match s with
+    | none => "-"
+    | some s =>
+      match w.gate (s.peerPath, s.peerIdx) with
+      | some g => s!"{e s.peerPath}#{e g.name}:{g.pos}@{dMetrics s.chan}"
+      | none => "?"
+  let mods := w.map fun m =>
+    let gs := sortStrings (m.gates.map fun g =>
+      s!"{e g.name}:{g.size}:{g.pos}:{slot g.slots[0]?}|{slot g.slots[1]?}")
+    "M{" ++ s!"{e m.path};{e m.sym};{",".intercalate gs}" ++ "}"
+  "ok:" ++ String.join (sortStrings mods)
+
+def dBuild : Except Fail World → String
+  | .ok w => dWorld w
+  | .error f => dFail f
+
+/-! ### script → document -/
+
+structure MAcc where
+  tag : String
+  raw : RawModule
+  subTags : List (String × Str)     -- (stag, raw field key), in script order
+
+structure Doc where
+  entry : Str := []
+  links : List (Str × Link) := []
+  mods : List MAcc := []
+
+def Doc.raw (d : Doc) : RawDef := ⟨d.entry, d.mods.map (·.raw), d.links⟩
+
+def Doc.modify (d : Doc) (tag : String) (f : MAcc → MAcc) : Doc :=
+  { d with mods := d.mods.map fun m => if m.tag = tag then f m else m }
+
+def Doc.has (d : Doc) (tag : String) : Bool := d.mods.any (·.tag = tag)
+
+def optStr (s : String) : Option Str := if s = "-" then none else some (unesc s)
+
+def registry (s : Str) : Bool :=
+  ["A", "B", "C", "D", "E", "F", "G", "H", "I", "J", "K", "L", "T", "Main"].any (·.toList = s)
+
+/-- put the parsed document into the iteration order the implementation observed -/
+def applyLayout (doc : Doc) (d : Def) (layout : String) : Option Def := do
+  let items := if layout.isEmpty then [] else layout.splitOn ","
+  let mut ms : List (TypClause GenericsDef × ModuleDef) := []
+  for it in items do
+    match it.splitOn ":" with
+    | [tag, subs] =>
+      let m ← doc.mods.find? (·.tag = tag)
+      let key ← (parseTypClause parseGenerics m.raw.key).toOption
+      let md ← d.modules.lookup key
+      let stags := if subs.isEmpty then [] else subs.splitOn "."
+      let mut ss : List (FieldDef × TypClause Str) := []
+      for st in stags do
+        let (_, rawf) ← m.subTags.find? (·.1 = st)
+        let f ← (parseField rawf).toOption
+        let t ← md.submodules.lookup f
+        ss := ss ++ [(f, t)]
+      if ss.length ≠ md.submodules.length then none
+      ms := ms ++ [(key, { md with submodules := ss })]
+    | _ => none
+  if ms.length ≠ d.modules.length then none
+  -- every key exactly once
+  if (ms.map (·.1)).eraseDups.length ≠ ms.length then none
+  return { d with modules := ms }
+
+/-- gate identifiers that occur with two different cardinalities in one module (own or inherited):
+    the hash-set iteration order then decides which one a connection finds -/
+def ambiguousGates (d : Def) : Bool :=
+  let gatesOf (name : Str) : List FieldDef :=
+    (d.modules.filter (·.1.ident = name)).flatMap (·.2.gates)
+  let rec eff (fuel : Nat) (name : Str) : List FieldDef :=
+    match fuel with
+    | 0 => []
+    | fuel + 1 =>
+      gatesOf name ++ ((d.modules.filter (·.1.ident = name)).flatMap fun km =>
+        match km.2.inherit with
+        | some p => eff fuel p
+        | none => [])
+  d.modules.any fun km =>
+    let gs := (eff (d.modules.length + 1) km.1.ident).eraseDups
+    (gs.map (·.ident)).eraseDups.length ≠ gs.length
+
+structure Stats where
+  clauses : Nat := 0
+  parseErr : Nat := 0
+  tOk : Nat := 0
+  tErr : Nat := 0
+  bOk : Nat := 0
+  bErr : Nat := 0
+  unreal : Nat := 0
+  mods : Nat := 0
+  conns : Nat := 0
+  weak : Nat := 0
+  generic : Nat := 0
+  inherit : Nat := 0
+  specOps : Nat := 0
+
+def splitLR (ans : String) : String × String :=
+  -- "L=<layout> R=<result>"
+  match ans.splitOn " R=" with
+  | [l, r] => ((l.drop 2).toString, r)
+  | _ => ("", ans)
+
+def countConns (w : World) : Nat := (w.map fun m => (m.gates.map (·.slots.length)).sum).sum / 2
+
+def runCase (c : Case) : String := Id.run do
+  let h := words c.header
+  let id := (h[1]?).getD "?"
+  let mut doc : Doc := {}
+  let mut st : Stats := {}
+  let mut i := 0
+  for line in c.body do
+    if line.startsWith "end" then continue
+    i := i + 1
+    let (lhs, ans) := splitArrow line
+    let l := words lhs
+    let chk (what : String) (model : String) : Option String :=
+      if model = ans then none
+      else if ans = "panic" then
+        some s!"fail {id} op={i} kind=reject clause=parse_total line=[{lhs}] what={what} spec=no-panic model={model} impl=panic"
+      else some s!"fail {id} op={i} kind=diverge line=[{lhs}] what={what} model={model} impl={ans}"
+    match l with
+    | ["entry", s] => doc := { doc with entry := unesc s }
+    | ["link", name, lat, jit, bit, q] =>
+      let lk : Link := ⟨lat.toInt?.getD 0, jit.toInt?.getD 0, bit.toInt?.getD 0,
+        if q = "-" then none else some (q.toInt?.getD 0)⟩
+      doc := { doc with links := doc.links ++ [(unesc name, lk)] }
+    | ["mod", tag, raw] =>
+      if doc.has tag then continue
+      let raw := unesc raw
+      doc := { doc with mods := doc.mods ++ [⟨tag, ⟨raw, none, [], [], []⟩, []⟩] }
+      st := { st with clauses := st.clauses + 1 }
+      let model := match parseTypClause parseGenerics raw with
+        | .ok k => s!"ok {dGen k}"
+        | .error .parse => "err"
+        | .error _ => "panic"
+      if model = "err" then st := { st with parseErr := st.parseErr + 1 }
+      if let some f := chk "mod" model then return f
+    | ["inherit", tag, sym] =>
+      doc := doc.modify tag fun m => { m with raw := { m.raw with inherit := some (unesc sym) } }
+    | ["gate", tag, raw] =>
+      if !doc.has tag then continue
+      let raw := unesc raw
+      doc := doc.modify tag fun m => { m with raw := { m.raw with gates := m.raw.gates ++ [raw] } }
+      st := { st with clauses := st.clauses + 1 }
+      let model := match parseField raw with
+        | .ok k => s!"ok {dField k}"
+        | .error .parse => "err"
+        | .error _ => "panic"
+      if model = "err" then st := { st with parseErr := st.parseErr + 1 }
+      if let some f := chk "gate" model then return f
+    | ["sub", tag, stag, rawf, rawt] =>
+      if !doc.has tag then continue
+      if doc.mods.any (fun m => m.tag = tag && m.subTags.any (·.1 = stag)) then continue
+      let (rawf, rawt) := (unesc rawf, unesc rawt)
+      doc := doc.modify tag fun m =>
+        { m with raw := { m.raw with submodules := m.raw.submodules ++ [(rawf, rawt)] },
+                 subTags := m.subTags ++ [(stag, rawf)] }
+      st := { st with clauses := st.clauses + 1 }
+      let model := match parseField rawf, parseTypClause parseStrArg rawt with
+        | .ok f, .ok t => s!"ok {dField f} {dTyp t}"
+        | .error (.internal _), _ | _, .error (.internal _) => "panic"
+        | _, _ => "err"
+      if model = "err" then st := { st with parseErr := st.parseErr + 1 }
+      if let some f := chk "sub" model then return f
+    | ["conn", tag, a, b, lk] =>
+      if !doc.has tag then continue
+      let (a, b) := (unesc a, unesc b)
+      doc := doc.modify tag fun m =>
+        { m with raw := { m.raw with connections := m.raw.connections ++ [⟨a, b, optStr lk⟩] } }
+      st := { st with clauses := st.clauses + 1 }
+      let model := match parseEndpoint a, parseEndpoint b with
+        | .ok x, .ok y => s!"ok {dEp x} {dEp y}"
+        | .error (.internal _), _ | _, .error (.internal _) => "panic"
+        | _, _ => "err"
+      if model = "err" then st := { st with parseErr := st.parseErr + 1 }
+      if let some f := chk "conn" model then return f
+    | ["yaml"] =>
+      let model := match parseDef doc.raw with
+        | .ok _ => "same"
+        | .error (.internal _) => "panic"
+        | .error _ => "err"
+      if let some f := chk "yaml" model then return f
+    | [op] =>
+      if op ≠ "transform" ∧ op ≠ "build" then return s!"fail {id} op={i} kind=badline detail=[{line}]"
+      match parseDef doc.raw with
+      | .error (.internal w) =>
+        return s!"fail {id} op={i} kind=reject clause=parse_total line=[{lhs}] model=internal:{w} impl={ans}"
+      | .error _ =>
+        if ans ≠ "noparse" then
+          return s!"fail {id} op={i} kind=diverge line=[{lhs}] model=noparse impl={ans}"
+      | .ok d0 =>
+        if ans = "noparse" then
+          return s!"fail {id} op={i} kind=diverge line=[{lhs}] model=parsed impl=noparse"
+        let (layout, res) := splitLR ans
+        match applyLayout doc d0 layout with
+        | none => return s!"fail {id} op={i} kind=diverge line=[{lhs}] what=layout model-keys={d0.modules.length} impl={layout}"
+        | some d =>
+          let weak := ambiguousGates d
+          if weak then st := { st with weak := st.weak + 1 }
+          let mt := transform d
+          if d.modules.any (fun km => !km.1.args.isEmpty) then st := { st with generic := 1 }
+          if d.modules.any (fun km => km.2.inherit.isSome) then st := { st with inherit := 1 }
+          -- the denotation, where the description is inside the specified fragment
+          let useSpec := !weak && !Spec.unsupported d
+          if Spec.unsupported d then st := { st with weak := st.weak + 1 }
+          if op = "transform" then
+            let model := match mt with
+              | .ok n => "ok:" ++ dNode n
+              | .error f => dFail f
+            match mt with
+            | .ok _ => st := { st with tOk := st.tOk + 1 }
+            | .error _ => st := { st with tErr := st.tErr + 1 }
+            if res = "panic" ∧ model ≠ "panic" then
+              return s!"fail {id} op={i} kind=reject clause=transform_total line=[{lhs}] spec=no-panic model={model} impl=panic"
+            if model = "panic" then
+              return s!"fail {id} op={i} kind=reject clause=transform_total line=[{lhs}] model=internal impl={res}"
+            if useSpec then
+              st := { st with specOps := st.specOps + 1 }
+              match Spec.denoteTree d with
+              | .ok n =>
+                let sp := "ok:" ++ dNode n
+                if !res.startsWith "ok:" then
+                  return s!"fail {id} op={i} kind=reject clause=error_kinds line=[{lhs}] what=valid-description-rejected spec={sp} model={model} impl={res}"
+                if sp ≠ res then
+                  return s!"fail {id} op={i} kind=reject clause=sound_complete line=[{lhs}] what=tree spec={sp} model={model} impl={res}"
+              | .error f =>
+                if res.startsWith "ok:" then
+                  return s!"fail {id} op={i} kind=reject clause=error_kinds line=[{lhs}] what=invalid-description-accepted spec={dFail f} model={model} impl={res}"
+            if !weak ∧ model ≠ res then
+              return s!"fail {id} op={i} kind=diverge line=[{lhs}] what=transform model={model} impl={res}"
+          else
+            match mt with
+            | .error _ =>
+              if res ≠ "notransform" ∧ !weak then
+                return s!"fail {id} op={i} kind=diverge line=[{lhs}] what=build model=notransform impl={res}"
+            | .ok n =>
+              let mb := instantiate registry n
+              let model := dBuild mb
+              match mb with
+              | .ok w => st := { st with bOk := st.bOk + 1, mods := st.mods + w.length, conns := st.conns + countConns w }
+              | .error (.internal _) => st := { st with unreal := st.unreal + 1 }
+              | .error _ => st := { st with bErr := st.bErr + 1 }
+              if useSpec then
+                st := { st with specOps := st.specOps + 1 }
+                let spec := Spec.denote registry d
+                let sp := dBuild spec
+                match spec with
+                | .ok _ =>
+                  if sp ≠ res then
+                    return s!"fail {id} op={i} kind=reject clause=sound_complete line=[{lhs}] what=simulation spec={sp} model={model} impl={res}"
+                | .error _ =>
+                  if res.startsWith "ok:" then
+                    return s!"fail {id} op={i} kind=reject clause=sound_complete line=[{lhs}] what=unrealisable-built spec={sp} model={model} impl={res}"
+              if !weak then
+                if model ≠ res then
+                  return s!"fail {id} op={i} kind=diverge line=[{lhs}] what=build model={model} impl={res}"
+              else if res = "panic" ∧ model ≠ "panic" then
+                return s!"fail {id} op={i} kind=reject clause=sound_complete line=[{lhs}] model={model} impl=panic"
+    | _ => return s!"fail {id} op={i} kind=badline detail=[{line}]"
+  let nt := (st.bOk > 0 ∧ st.mods ≥ 3 ∧ st.conns ≥ 1) ∨ st.tErr > 0 ∨ (st.parseErr > 0 ∧ st.clauses ≥ 3)
+  return s!"ok {id} nt={if nt then 1 else 0} clauses={st.clauses} parse_err={st.parseErr} transform_ok={st.tOk} transform_err={st.tErr} build_ok={st.bOk} build_err={st.bErr} unrealisable={st.unreal} modules={st.mods} connections={st.conns} weak={st.weak} generic={st.generic} inherit={st.inherit} spec_compared={st.specOps}"
 
 def main (stdin : IO.FS.Stream) : IO Unit := do
   let cases ← readCases stdin
   for c in cases do
-    IO.println s!"fail {(words c.header)[1]?.getD "?"} op=0 kind=unimplemented"
+    IO.println (runCase c)
 
 end Driver.C18
